@@ -35,6 +35,7 @@ verus! {
 //%include spec/shape.rs
 //%include spec/sem.rs
 //%include spec/syntax.rs
+//%include spec/lemmas_tables.rs
 //%include spec/lemmas.rs
 //%item solver.rs Cache struct Cache
 //%item solver.rs impl_Cache impl Document for Cache
